@@ -10,15 +10,17 @@ ECHO, NORESPONSE, RTAG = 252, 258, 292
 
 # per-option length limits of the parser (so that most generated requests are accepted)
 LIMITS = {1: (0, 8), 3: (1, 255), 4: (1, 8), 5: (0, 0), 6: (0, 3), 7: (0, 2), 8: (0, 255),
-          9: (0, 255), 11: (0, 255), 12: (0, 2), 14: (0, 4), 15: (1, 255), 16: (1, 1), 17: (0, 2),
+          9: (0, 255), 11: (0, 255), 12: (0, 2), 14: (0, 4), 15: (0, 255), 16: (1, 1), 17: (0, 2),
+          19: (0, 3), 31: (0, 3),
           20: (0, 255), 23: (0, 3), 27: (0, 3), 28: (0, 4), 35: (1, 1034), 39: (1, 255),
-          60: (0, 4), 252: (0, 40), 258: (0, 1), 292: (0, 8)}
+          60: (0, 4), 252: (1, 40), 258: (0, 1), 292: (0, 8)}
 
 NON_REPEATABLE = [3, 5, 6, 7, 9, 12, 14, 16, 17, 23, 27, 28, 35, 39, 60, 252, 258]
 UNKNOWN_CRIT = [13, 21, 25, 29, 33, 37, 41, 47, 65, 67, 19, 31, 9, 2049, 2051, 2053, 65001, 65535, 257]
 UNKNOWN_ELEC = [2, 10, 18, 22, 26, 30, 64, 66, 2048, 2050, 65000]
 
-PATHS = [[b"a"], [b"b"], [b"a", b"b"], [b"x/y"], [b".well-known", b"core"], [], [b""], [b"\xc3\xa9"],
+PATHS = [[b"a"], [b"b"], [b"a", b"b"], [b"x/y"], [b"a/b"], [b"x", b"y"], [b"a%2Fb"], [b"."], [b".."],
+         [b"a", b".", b"b"], [b"a%b"], [b"/"], [b"a/"], [b".well-known", b"core"], [], [b""], [b"\xc3\xa9"],
          [b"a", b"", b"b"], [b".well-known"], [b"a b"], [b"A"], [b"long-segment-0123456789"], [b"a&b"],
          [b"%41"]]
 
@@ -150,6 +152,8 @@ HCODES = [0, 69, 69, 69, 65, 66, 67, 68, 95, 128, 132, 133, 140, 141, 143, 160, 
 
 
 def gen_hact(r):
+    if r.random() < 0.06:
+        return "0/-/-/A", 0, [], b""
     code = r.choice(HCODES) if r.random() < 0.9 else r.randrange(256)
     if code == 168:
         code = 160
@@ -218,7 +222,7 @@ def gen_request(r, t):
     for s in segs:
         opts.append((URI_PATH, s))
     for _ in range(r.choice([0, 0, 0, 1, 2])):
-        opts.append((URI_QUERY, r.choice([b"a=1", b"x&y", b"rt=t", b"a/b?c", b" ", b"\x00\xff", b"k=%20"])))
+        opts.append((URI_QUERY, r.choice([b"a=1", b"x&y", b"rt=t", b"a/b?c", b" ", b"\x00\xff", b"k=%20", b"", b"%", b"x%26y"])))
     if r.random() < 0.12:
         opts.append((IF_NONE_MATCH, b""))
         tags.append("inm")
